@@ -205,15 +205,17 @@ def universe(tier, seed, shard, nshards):
                         for pen, ms in ((None, None), (0.5, None), (None, 1.2)):
                             yield 'U3-shapes', max(r, c) <= 4, {'s1': univ.catalogue(r, A, k1), 's2': univ.catalogue(c, A, k2), 'window': w,
                                                               'penalty': pen, 'psi': psi, 'max_step': ms, 'inner': 'sq' if (k1 + k2) % 2 == 0 else 'eu'}
-    for r in range(1, 13):
-        for c in range(1, 13):
+    top = 19 if thorough else 13
+    for r in range(1, top):
+        for c in range(1, top):
             if max(r, c) < 7:
                 continue
             idx += 1
             if idx % nshards != shard:
                 continue
-            for w in (1, 2, 3):
-                for psi in (None, 1, (0, 0, 0, 2), (0, 2, 0, 0), (2, 0, 0, 0), (0, 0, 2, 0)):
+            for w in ((1, 2, 3, 4, 5) if thorough else (1, 2, 3)):
+                for psi in (None, 1, (0, 0, 0, 2), (0, 2, 0, 0), (2, 0, 0, 0), (0, 0, 2, 0)) + \
+                        (((5, 0, 0, 0), (0, 0, 5, 0), (0, 5, 0, 0), (0, 0, 0, 5), (3, 3, 3, 3), (0, r, 0, 0), (0, 0, 0, c)) if thorough else ()):
                     if psi is not None:
                         p = oracles.norm_psi(psi)
                         if oracles.psi_degenerate(p, r, c) or max(p[:2]) > r or max(p[2:]) > c:
@@ -266,7 +268,7 @@ def run(ctx):
              'non-trivial = more than one admissible path and penalty, psi or band active',
         bounds={'alphabet': list(univ.alphabet(univ.BASE3, ctx.seed)),
                 'U1': 'all pairs len 1..3 x window{None,1,2} x penalty{None,.5,2} x max_step{None, 2|a| (separates squared from unsquared comparisons)} x inner x 11 psi forms; custom start from every finite cell',
-                'U3': 'all shapes up to %d x every window x 9 psi forms x catalogue values' % (6 if ctx.thorough else 5), 'U4': 'ndim 2, len 1..2', 'U5': 'long thin bands: every shape up to 12x12 with max >= 7, windows 1..3, 6 psi forms'},
+                'U3': 'all shapes up to %d x every window x 9 psi forms x catalogue values' % (6 if ctx.thorough else 5), 'U4': 'ndim 2, len 1..2', 'U5': 'long thin bands: every shape up to %s with max >= 7, windows %s, %d psi forms' % (('18x18', '1..5', 13) if ctx.thorough else ('12x12', '1..3', 6))},
         assumptions=['engines may return different optimal paths: no path equality is demanded', 'cases without any admissible path (reference inf) are not judged'],
         t0=ctx.t0)
 
